@@ -223,6 +223,11 @@ LIB = {
     "Control": [
         ("finally-return-override", "(() => { try { return 1; } finally { return 2; } })()"), ("finally-after-catch-return", "(() => { let log = ''; function f() { try { throw 1; } catch (e) { log += 'c'; } finally { log += 'f'; } return 'r'; } f(); return log; })()"),
         ("finally-nested-try-in-finally", "(() => { let l = ''; function f() { try { return 'r'; } finally { try { l += 'a'; } finally { l += 'b'; } l += 'c'; } } const v = f(); return l + v; })()"),
+        ("continue-in-catch-through-finally", "(() => { let l = ''; try { throw 1; } catch (e) { for (let i = 0; i < 3; i++) { try { if (i < 2) continue; l += 'x'; } finally { l += i; } } l += 'e'; } return l; })()"),
+        ("break-in-finally-body-loop", "(() => { let l = ''; try { l += 't'; } finally { for (let i = 0; i < 3; i++) { try { if (i === 1) break; l += 'b'; } finally { l += i; } } l += 'e'; } return l; })()"),
+        ("labeled-continue-in-catch", "(() => { let l = ''; try { throw 1; } catch (e) { outer: for (let i = 0; i < 2; i++) { for (let j = 0; j < 2; j++) { try { continue outer; } finally { l += '' + i + j; } } } } return l; })()"),
+        ("finally-throw-replaces-pending", "(() => { let l = ''; try { try { try { throw 1; } finally { throw 2; } } catch (e) { l += 'c' + e; } finally { l += 'f'; } } catch (e2) { l += 'X' + e2; } return l; })()"),
+        ("finally-break-replaces-pending", "(() => { let l = ''; try { for (;;) { try { throw 1; } finally { break; } } try { l += 'a'; } finally { l += 'b'; } l += 'c'; } catch (e2) { l += 'X' + e2; } return l; })()"),
         ("finally-nested-throw-pending", "(() => { let l = ''; try { try { throw 1; } finally { try { l += 'a'; } finally { l += 'b'; } l += 'c'; } } catch (e) { l += e; } return l; })()"),
         ("finally-inner-break-keeps-pending", "(() => { let l = ''; try { try { throw 1; } finally { for (;;) { try { break; } finally { l += 'b'; } } l += 'c'; } } catch (e) { l += e; } return l; })()"),
         ("finally-break", "(() => { let n = 0; for (;;) { try { break; } finally { n++; } } return n; })()"), ("finally-continue", "(() => { let n = 0; for (let i = 0; i < 2; i++) { try { continue; } finally { n++; } } return n; })()"),
